@@ -88,6 +88,7 @@ def run(F, R, ctx):
     both_operands_rule(F, R)
     same_field_rule(F, R)
     overflow_arm_rule(F, R)
+    exact_comparison_rule(F, R)
 
 
 def _run(F, R, ctx):
@@ -480,3 +481,43 @@ def overflow_arm_rule(F, R):
                    "answers 'greater'" % (fn.short(), m_.group(2), cb["line"]), fn.loc(cb["line"]),
                    sample={"calls_on_none_edge": [lib.split_path(c)[-1] for c in computes][:5]} if n % 4 == 0 else None)
     R.floor("C10.o", "matched checked operations in the numeric surface", n, 12 if "jit2" in (F.meta.get("features") or []) else 8)
+
+
+def exact_comparison_rule(F, R):
+    R.rule("C10.y", "comparing an exact number with a double does not round the exact one: in <SteelVal as PartialOrd>::partial_cmp "
+                    "and in `=` (number_equality), and in the helpers of steel::rvals they call (one level), an integer-to-float "
+                    "cast or a to_f64() conversion is dominated by a branch on a comparison (the range in which the conversion is "
+                    "exact). nc: rounding the exact operand first makes `<`, `=` and `>` all false for one pair — "
+                    "(< 9007199254740993 9007199254740992.0), (= …), (> …) — and (= 1/3 0.3333333333333333) true")
+    roots = F.find(r"\{impl PartialOrd(<SteelVal>)? for SteelVal\}::partial_cmp$") + F.find(r"^steel::rvals::number_equality$")
+    if len(roots) < 2:
+        raise CheckError("anchor lost: SteelVal's partial_cmp / number_equality")
+    fns = {f.name: f for f in roots}
+    for f in roots:
+        for _, b in f.calls():
+            c = F.fns.get(b["callee"])
+            if c is not None and c.name.startswith("steel::rvals::") and len(c.blocks) < 80:
+                fns[c.name] = c
+                for _, b2 in c.calls():
+                    c2 = F.fns.get(b2["callee"])
+                    if c2 is not None and c2.name.startswith("steel::rvals::") and len(c2.blocks) < 80:
+                        fns[c2.name] = c2
+    n = 0
+    for name, fn in sorted(fns.items()):
+        dom = fn.dominators()
+        sites = [(i, "`as f64` (line %s)" % e[4]) for i, _, e in fn.events("cast") if e[1] == "IntToFloat"]
+        sites += [(i, "to_f64() (line %s)" % b["line"]) for i, b in fn.calls() if re.search(r"ToPrimitive[^}]*\}::to_f64$|::to_f64$", b["callee"])]
+        for i, what in sites:
+            n += 1
+            guarded = False
+            for sb in dom[i]:
+                blk = fn.blocks[sb]
+                if sb != i and blk["k"] == "switch" and blk["on"] == "bool":
+                    sides = [t for t in set(blk["s"]) if t == i or i in fn.reachable_from([t], avoid={sb})]
+                    if len(sides) == 1:
+                        guarded = True
+            R.inst("C10.y", "%s / %s only where the conversion is exact" % (fn.short(), what.split(" (")[0]), guarded,
+                   "%s converts an exact operand to a double with %s before comparing it with a double, without a range test: "
+                   "the conversion rounds large integers and most rationals, so the comparison is not the comparison of the "
+                   "two values" % (fn.short(), what), fn.loc(), sample=True)
+    R.inst("C10.y", "mixed exact / inexact comparison functions examined", len(fns) >= 2, "", "", sample={"functions": sorted(lib.short_name(x) for x in fns), "conversions": n})
